@@ -31,7 +31,9 @@ CLAIMED.update({
     "C02": (
         "Lean 4 theorems: the firing decision and the missing report stated outright (iff), argument positions; differential correspondence on real components of every type",
         "Proof: fires_iff, missing_exact, process_cases, not_fired_no_value, disabled_silent, args_bind, deps_order, parser_binding over IV.Dr; tie as C01 plus an oracle that "
-        "recomputes firing / report / bound arguments from the generated declaration. Datasource and parser bindings are the specialised ones their types document.",
+        "recomputes firing / report / bound arguments from the generated declaration. Datasource and parser bindings are the specialised ones their types document. "
+        "derive_* theorems for the decorator glue (class-level + positional + keyword declarations); second_evaluation(_fresh): a used broker evaluates like a fresh one holding the same values "
+        "(tied by histories in which a missing value is supplied and the graph evaluated again); declarations on the component type and present-but-None values are generated.",
         DR_NOTE, "DESIGN.md §6 C02"),
     "C03": (
         "Lean 4 theorems: locality of step (entry = function of the instances it reads), uniqueness along any valid order, attribution of every log entry; differential correspondence with dense fault injection",
